@@ -10,6 +10,7 @@ import RtcModel.Srtp
 import RtcModel.Lemmas.SrtpRoc
 import RtcModel.Lemmas.SrtpHeader
 import RtcModel.Lemmas.Srtp
+import RtcModel.Lemmas.SrtpTable
 
 namespace RtcModel.Theorems.C04
 open RtcModel.Srtp RtcModel.C04 RtcModel.Generated
@@ -308,5 +309,101 @@ example (S : Suite) (mk ms : Bytes) (cs cr : Ctx)
 example : Pkt.WF ⟨⟨true, 96, 65535, 7, 0xdeadbeef, [1, 2], some ⟨0xBEDE, [1, 2, 3, 4]⟩⟩, [9, 9, 9], 4⟩ := by
   refine ⟨?_, by decide⟩
   constructor <;> simp <;> decide
+
+/-! ### Round trip through the session API, any number of SSRCs -/
+
+/-- a sender session and the receiver session of the same direction: same profile and usable keying
+material, and every context in the two tables was derived from it (true of new sessions, preserved
+by every operation) -/
+structure Linked (S : Suite) (s r : Sess) : Prop where
+  profile : r.profile = s.profile
+  mkey : r.rxMk = s.txMk
+  msalt : r.rxMs = s.txMs
+  keyLen : srtpKeyLen ≤ s.txMk.length
+  saltLen : s.profile.saltLen ≤ s.txMs.length
+  txInv : TableInv S s.profile s.txMk s.txMs s.tx
+  rxInv : TableInv S r.profile r.rxMk r.rxMs r.rx
+
+/-- **session_roundtrip_rtp**: through `SrtpSession::protect_rtp` → wire → `SrtpPacket::parse` →
+`SrtpSession::unprotect_rtp`, for any tables (any number of other SSRCs, contexts created on demand,
+eviction running on both sides at arbitrary times `now`, `now'`): if the two sessions hold the same
+rollover state for the packet's SSRC (both none counts), the receiver returns exactly the packet, both
+sessions stay `Linked`, and they again hold the same rollover state for that SSRC. -/
+theorem session_roundtrip_rtp (S : Suite) (s r : Sess) (now now' : Nat) (p : Pkt) (wf : p.WF)
+    (hl : Linked S s r)
+    (hsync0 : rocOf s.tx p.hdr.ssrc = rocOf r.rx p.hdr.ssrc) :
+    ∃ wire, (s.protectRtp S now p).1 = .ok wire ∧
+      (r.receiveRtp S now' wire).1 = .ok p ∧
+      Linked S (s.protectRtp S now p).2 (r.receiveRtp S now' wire).2 ∧
+      rocOf (s.protectRtp S now p).2.tx p.hdr.ssrc = rocOf (r.receiveRtp S now' wire).2.rx p.hdr.ssrc := by
+  have hsync : rocOf (evict s.tx p.hdr.ssrc now) p.hdr.ssrc = rocOf r.rx p.hdr.ssrc := by
+    rw [← hsync0]; simp only [rocOf, lookup_evict_keep]
+  -- the context the sender works on
+  obtain ⟨cs, hcsK, hcsS, hcsR, hres, hroc⟩ := withTx_result S s now p.hdr.ssrc (fun c => c.protectRtp S p)
+    hl.txInv hl.keyLen hl.saltLen (fun c => protectRtp_ssrc S c p)
+  have hprot := protectRtp_eq S cs p (validHdr_of_WF _ wf.hdr)
+  change (s.protectRtp S now p).1 = (cs.protectRtp S p).1 at hres
+  change rocOf (s.protectRtp S now p).2.tx p.hdr.ssrc = ((cs.protectRtp S p).2.roc, (cs.protectRtp S p).2.last) at hroc
+  rw [hprot] at hres hroc
+  -- the context the receiver works on
+  have hrk : srtpKeyLen ≤ r.rxMk.length := by rw [hl.mkey]; exact hl.keyLen
+  have hrs : r.profile.saltLen ≤ r.rxMs.length := by rw [hl.profile, hl.msalt]; exact hl.saltLen
+  obtain ⟨cr, hcrK, hcrS, hcrR, hacc⟩ := withRx_result S r now' p.hdr.ssrc
+    (fun c => c.unprotectRtp S p.hdr (p.padLen ≠ 0) (rtpWireBody S cs p (cs.estimate p.hdr.seq)))
+    hl.rxInv hrk hrs (fun c => unprotectRtp_ssrc S c _ _ _)
+  have hst : (cr.roc, cr.last) = (cs.roc, cs.last) := by rw [hcrR, hcsR, hsync]
+  have hroc' : cr.roc = cs.roc := (Prod.mk.injEq .. ▸ hst).1
+  have hlast' : cr.last = cs.last := (Prod.mk.injEq .. ▸ hst).2
+  have hest : cr.estimate p.hdr.seq = cs.estimate p.hdr.seq := by simp [Ctx.estimate, hroc', hlast']
+  have hun := unprotect_wireBody S cs cr p wf (by rw [hcrS, hcsS])
+    (by rw [hcrK.profile, hcsK.profile, hl.profile])
+    (by rw [hcrK.rtp, hcsK.rtp, hl.profile, hl.mkey, hl.msalt])
+  rw [hest] at hun
+  obtain ⟨hok, hroc2⟩ := hacc p (by show (cr.unprotectRtp S _ _ _).1 = _; rw [hun])
+  have hu : (r.unprotectRtp S now' p.hdr (p.padLen ≠ 0) (rtpWireBody S cs p (cs.estimate p.hdr.seq))).1 = .ok p := hok
+  obtain ⟨hrecv, hrecvs⟩ := receiveRtp_ok S r now' _ p.hdr (p.padLen ≠ 0) _ p (parseHdr_writeHdr _ _ _ wf.hdr) hu
+  refine ⟨_, hres, hrecv, ?_, ?_⟩
+  · -- both sessions keep their keys and table invariants
+    have t := protectRtp_kept S s now p hl.txInv
+    have q := unprotectRtp_kept S r now' p.hdr (p.padLen ≠ 0) (rtpWireBody S cs p (cs.estimate p.hdr.seq)) hl.rxInv
+    rw [hrecvs]
+    exact ⟨by rw [q.profile, t.profile]; exact hl.profile, by rw [q.rxMk, t.txMk]; exact hl.mkey,
+      by rw [q.rxMs, t.txMs]; exact hl.msalt, by rw [t.txMk]; exact hl.keyLen,
+      by rw [t.profile, t.txMs]; exact hl.saltLen,
+      by rw [t.profile, t.txMk, t.txMs]; exact t.inv, by rw [q.profile, q.rxMk, q.rxMs]; exact q.inv⟩
+  · rw [hrecvs]
+    change _ = rocOf (r.unprotectRtp S now' p.hdr (p.padLen ≠ 0) _).2.rx p.hdr.ssrc
+    rw [hroc]
+    change _ = rocOf (r.withRx S now' p.hdr.ssrc _).2.rx p.hdr.ssrc
+    rw [hroc2]
+    show _ = ((cr.unprotectRtp S _ _ _).2.roc, (cr.unprotectRtp S _ _ _).2.last)
+    rw [hun]
+    simp [Ctx.updated, hroc', hlast']
+
+/-- a stream of packets of one SSRC sent and delivered in order through the two sessions -/
+def streamThrough (S : Suite) : Sess → Sess → Nat → List Pkt → List (Except (ParseErr ⊕ Err) Pkt)
+  | _, _, _, [] => []
+  | s, r, now, p :: ps =>
+    match (s.protectRtp S now p).1 with
+    | .ok wire => (r.receiveRtp S now wire).1 :: streamThrough S (s.protectRtp S now p).2 (r.receiveRtp S now wire).2 now ps
+    | .error e => [.error (.inr e)]
+
+/-- every packet of an in-order stream of any length on one SSRC comes out exactly as it went in —
+whatever the sequence numbers do (the two ends run the same estimate from the same state) -/
+theorem session_stream_roundtrip (S : Suite) (k now : Nat) (ps : List Pkt) (s r : Sess) (hl : Linked S s r)
+    (hps : ∀ p ∈ ps, p.WF ∧ p.hdr.ssrc = k) (hsync : rocOf s.tx k = rocOf r.rx k) :
+    streamThrough S s r now ps = ps.map .ok := by
+  induction ps generalizing s r with
+  | nil => rfl
+  | cons p ps ih =>
+    obtain ⟨wf, hk⟩ := hps p (by simp)
+    subst hk
+    obtain ⟨wire, h1, h2, h3, h4⟩ := session_roundtrip_rtp S s r now now p wf hl hsync
+    simp only [streamThrough, h1, h2, List.map_cons]
+    rw [ih _ _ h3 (fun q hq => hps q (by simp [hq])) h4]
+
+example (S : Suite) (mk ms : Bytes) (h1 : srtpKeyLen ≤ mk.length) (h2 : Profile.gcm.saltLen ≤ ms.length) :
+    Linked S (Sess.new .gcm mk ms mk ms) (Sess.new .gcm mk ms mk ms) :=
+  ⟨rfl, rfl, rfl, h1, h2, fun _ h => by simp [Sess.new] at h, fun _ h => by simp [Sess.new] at h⟩
 
 end RtcModel.Theorems.C04
